@@ -72,7 +72,7 @@ class PathI(Interface):
         'glob': Method(returns=ListOf(Iface(lambda: PathI)), pure=True),
         '__truediv__': Method(returns=Iface(lambda: PathI), pure=True),
     }
-    attrs = {'parent': Iface(lambda: PathI), 'name': Str, 'parts': Any_, 'as_str': Str}
+    attrs = {'parent': Iface(lambda: PathI), 'name': Str, 'parts': ListOf(Str), 'as_str': Str}
     sort_key = 'as_str'      # paths are ordered like their (case-folded, on Windows) parts
 
 
